@@ -1,5 +1,5 @@
 """C04 write statements have exactly their openCypher effect (CypherWrite.tla Mode C04, harness bin cywrite)."""
-from .cywrite_common import gen, trace_cfg, corrupt_dump
+from .cywrite_common import gen, trace_cfg, corrupt_dump, cap
 
 INV = "C04_NoDangling"
 PROPS = "C04_ConnectedDeleteRefused C04_MergeIdempotent C05_ErrorChangesNothing"
@@ -13,9 +13,10 @@ def run(ctx):
     # every transition of the abstract state graph within the history bound: ~45 statement shapes over CREATE (nodes, paths),
     # MERGE (ON CREATE / ON MATCH, unlabelled, per UNWIND / MATCH row), SET (property, from another property, swap, += map,
     # label, null, failing expression), REMOVE (property, label), DELETE / DETACH DELETE (nodes, relationships), with RETURN
-    scripts = ctx.tlc_gen("MC_CypherWrite", gen("C04", 6, 4, 3 if q else 4, inv=INV, props=PROPS, rich=not q), "cover", timeout=6000)
+    scripts = ctx.tlc_gen("MC_CypherWrite", gen("C04", 6, 4, 3, inv=INV, props=PROPS, rich=not q), "cover", timeout=6000, workers=1)
+    scripts = cap(ctx, scripts, 5000 if q else 80000, "cover")
     walks = ctx.tlc_gen("MC_CypherWrite", gen("C04", 8, 6, 6, view=False, emit="", inv=INV + " SimEmit", rich=True),
-                        "walks", simulate=(300 if q else 20000, 7), workers=4)
+                        "walks", simulate=(500 if q else 20000, 7), workers=4)
     ctx.assume("graphs of <= 6 nodes / 4 relationships grown from the empty graph by the statements themselves; labels {A,B}, keys {k,p}, "
                "integer values; no constraints or indexes (C05 / C11 cover those)",
                "returned rows are compared as bags; the order in which MATCH feeds rows to the write clause is left open",
